@@ -106,6 +106,13 @@ def do_strip(ctx, t, step, case, labels):
     if any(c[0] is None and c[1] is not None for r in before["rows"] for c in r):
         labels.add("styled-empty")
     with ctx.guard(("C17", which, "exception"), case):
+        if step.get("probe") and hb:
+            # coordinate reads in the last rows / cells first (they fill the wrapper caches the stripping must not trust later)
+            for yy in {hb - 1, max(hb - 2, 0), 0}:
+                t.get_value((0, yy))
+                t.get_cell((max(wb - 1, 0), yy))
+                t.get_row(yy)
+            labels.add("probe-before-strip")
         if which == "rstrip":
             t.rstrip(aggressive=step["aggr"])
         else:
@@ -138,6 +145,22 @@ def do_strip(ctx, t, step, case, labels):
             len(r) == len(q) and all(cell_eq(a, b) for a, b in zip(r, q)) for r, q in zip(again["rows"], after["rows"]))
         ctx.check(same, ("C17", which, "not-idempotent"),
                   f"second {which} changed the table: {once} -> {t.serialize()}", case)
+        if step.get("probe"):
+            # the stripped table keeps working by coordinates: values written just below / right of it are read back there
+            h2, w2 = len(again["rows"]), max(again["w"], bbox(again)[0])
+            writes = [((0, h2), "below0"), ((1, h2 + 1), "below1"), ((w2 + 2, 0 if h2 else 2), "right0")]
+            for xy_, val in writes:
+                t.set_value(xy_, val)
+            for xy_, val in writes:
+                got = t.get_value(xy_)
+                ctx.check(got == val, ("C17", which, "write-after-strip-not-read-back"),
+                          f"after {which} (size {(w2, h2)}): set_value({xy_}, {val!r}) then get_value = {got!r}; get_values() = {t.get_values()!r}", case)
+            sp = t.set_span((0, h2, 1, h2 + 1))
+            ctx.check(sp is True and t.get_cell((0, h2)).is_spanned(), ("C17", which, "span-after-strip"),
+                      f"after {which}: set_span over the rows written below the table returned {sp}, is_spanned={t.get_cell((0, h2)).is_spanned()}", case)
+            ctx.check(t.del_span((0, h2)) is True, ("C17", which, "span-after-strip"), "del_span of that span returned False", case)
+            lint(ctx, t, case, which)
+            fresh_equal(ctx, t, case, which)
 
 
 def has_spans(s):
@@ -399,6 +422,8 @@ def run_shard(ctx):
     step = st.one_of(
         st.fixed_dictionaries({"k": st.just("rstrip"), "aggr": st.booleans()}),
         st.fixed_dictionaries({"k": st.just("optimize_width")}),
+        st.fixed_dictionaries({"k": st.just("rstrip"), "aggr": st.booleans(), "probe": st.just(True)}),
+        st.fixed_dictionaries({"k": st.just("optimize_width"), "probe": st.just(True)}),
         st.fixed_dictionaries({"k": st.just("transpose2")}),
         st.fixed_dictionaries({"k": st.just("transpose_area2"), "x": st.integers(0, 3), "y": st.integers(0, 3), "n": st.integers(1, 3)}),
         st.fixed_dictionaries({"k": st.just("set_span"), "x": c, "y": c, "dx": st.integers(0, 2), "dy": st.integers(0, 2),
